@@ -35,7 +35,8 @@ MULTI = ("MADDPG", "MATD3")
 ALGOS = SINGLE_DISCRETE + ("Rainbow",) + SINGLE_AC + MULTI
 OBS_DIM = 3
 N_ACT = 3            # discrete actions
-ACT_DIM = 2          # continuous action dimension
+ACT_DIM = 3          # continuous action dimension (the critics layer-normalise the action vector: with 2 components
+                     # only the sign of their difference would survive and the critics would be blind to the next action)
 AGENT_IDS = ["a_0", "b_0"]
 MA_OBS = {"a_0": 3, "b_0": 2}
 MA_ACT = {"a_0": 2, "b_0": 1}
@@ -499,8 +500,8 @@ class C08(vlib.Driver):
                 if algo in SINGLE_AC:
                     case["share"] = (j % 4 == 3)
                     # boxes narrower than the noise clip, so that the clamp to the action box acts on most rows
-                    lo = [rng.choice([-1.0, -0.25]), rng.choice([-0.5, -0.125, 0.0])]
-                    case["lo"], case["hi"] = lo, [rng.choice([1.0, 0.25]), rng.choice([0.125, 0.25, 2.0])]
+                    lo = [rng.choice([-1.0, -0.25]), rng.choice([-0.5, -0.125, 0.0]), rng.choice([-1.0, -0.5])]
+                    case["lo"], case["hi"] = lo, [rng.choice([1.0, 0.25]), rng.choice([0.125, 0.25, 2.0]), rng.choice([0.5, 1.0])]
                 if algo in MULTI:
                     case["ma_split"] = (j % 2 == 1)
                 if algo == "Rainbow":
@@ -526,9 +527,9 @@ class C08(vlib.Driver):
         "CDQN": [{"form": "tuple", "obs": "dict"}, {"obs": "disc", "pre": ["mut_arch", "ckpt"]}],
         "Rainbow": [{"obs": "image"}, {"obs": "dict", "per": True}, {"pre": ["mut_param", "ckpt"]}, {"pre": ["learn", "mut_hp"], "per": True},
                     {"obs": "disc", "pre": ["clone", "mut_param", "clone"]}],
-        "DDPG": [{"default_noise": True, "lo": [-1.0, -1.0], "hi": [1.0, 1.0]}, {"obs": "dict"}, {"obs": "image", "share": True}, {"pre": ["clone", "mut_arch", "clone"], "share": True},
+        "DDPG": [{"default_noise": True, "lo": [-1.0, -1.0, -1.0], "hi": [1.0, 1.0, 1.0]}, {"obs": "dict"}, {"obs": "image", "share": True}, {"pre": ["clone", "mut_arch", "clone"], "share": True},
                  {"pre": ["mut_arch", "ckpt"]}, {"pre": ["learn", "mut_hp"]}],
-        "TD3": [{"form": "tuple"}, {"default_noise": True, "form": "tuple", "lo": [-1.0, -1.0], "hi": [1.0, 1.0]}, {"obs": "dict", "pre": ["mut_arch", "load"]},
+        "TD3": [{"form": "tuple"}, {"default_noise": True, "form": "tuple", "lo": [-1.0, -1.0, -1.0], "hi": [1.0, 1.0, 1.0]}, {"obs": "dict", "pre": ["mut_arch", "load"]},
                 {"pre": ["learn", "mut_hp"], "share": True}, {"obs": "image", "pre": ["clone", "mut_act", "clone"]}],
         "MADDPG": [{"key_order": "reversed"}, {"ids_unsorted": True}, {"ids_unsorted": True, "key_order": "reversed", "pre": ["learn", "clone"]},
                    {"ma_discrete": True}, {"ma_discrete": True, "key_order": "reversed"}, {"pre": ["mut_arch", "ckpt"]}, {"pre": ["learn", "mut_hp"]}],
@@ -553,7 +554,7 @@ class C08(vlib.Driver):
                         case["pf"] = 1 + (vi + r) % 3
                     if algo in SINGLE_AC:
                         case["share"] = False
-                        case["lo"], case["hi"] = [-0.25, -0.125], [1.0, 0.25]
+                        case["lo"], case["hi"] = [-0.25, -0.125, -1.0], [1.0, 0.25, 0.5]
                     if algo in MULTI:
                         case["ma_split"] = bool((vi + r) % 2)
                     if algo == "Rainbow":
@@ -920,7 +921,7 @@ class C08(vlib.Driver):
         checks.append(("ReplayBuffer/return_idx", fmt(buf.sample(B, return_idx=True)),
                        fmt(make_batch(dict(base, algo="Rainbow", rb=dict(rbc, nstep_batch=True, n_step=3)))[0][0])))
         buf = ReplayBuffer(max_size=8); fill(buf, True)
-        checks.append(("ReplayBuffer/continuous", fmt(buf.sample(B)), fmt(make_batch(dict(base, algo="DDPG", lo=[-1, -1], hi=[1, 1]))[0])))
+        checks.append(("ReplayBuffer/continuous", fmt(buf.sample(B)), fmt(make_batch(dict(base, algo="DDPG", lo=[-1, -1, -1], hi=[1, 1, 1]))[0])))
         buf = PrioritizedReplayBuffer(max_size=8, alpha=0.6); fill(buf, False)
         checks.append(("PrioritizedReplayBuffer", fmt(buf.sample(B, 0.4)),
                        fmt(make_batch(dict(base, algo="Rainbow", rb=dict(rbc, per=True, wshape="col")))[0][0])))
